@@ -72,6 +72,13 @@ pub fn esc(s: &str) -> String {
     s.replace('\\', "\\\\").replace('\n', "\\n").replace('\t', "\\t").replace(' ', "\\s")
 }
 
+/// a sink that accepts at most `max` bytes per `write` call, as pipes, sockets and encoders may
+struct ShortWriter { buf: Vec<u8>, max: usize }
+impl std::io::Write for ShortWriter {
+    fn write(&mut self, b: &[u8]) -> std::io::Result<usize> { let n = b.len().min(self.max); self.buf.extend_from_slice(&b[..n]); Ok(n) }
+    fn flush(&mut self) -> std::io::Result<()> { Ok(()) }
+}
+
 fn export_req<K: Kmer + Send + Sync>(a: &[&str]) -> String {
     let g: DebruijnGraph<K, u32> = build_graph(a[2] == "1", a[3]);
     let mut gfa: Vec<u8> = Vec::new();
@@ -123,7 +130,8 @@ fn export_req<K: Kmer + Send + Sync>(a: &[&str]) -> String {
     let _ = std::fs::remove_file(&p3);
     let gfa_txt = String::from_utf8(gfa).unwrap();
     let gfafile = f1 == gfa_txt.as_bytes();
-    format!("gfa={}|json={}|gfatags={}|dot={}|dbg={}|jsonok={}|gfafile={}", esc(&gfa_txt), esc(&jtxt), esc(&f2), esc(&f3), esc(&dbg.join("\n")).replace('|', "\\p"), jsonok as u8, gfafile as u8)
+    let gfashort = [1usize, 7, 64].iter().all(|m| { let mut w = ShortWriter { buf: Vec::new(), max: *m }; g.write_gfa(&mut w).is_ok() && w.buf == gfa_txt.as_bytes() });
+    format!("gfa={}|json={}|gfatags={}|dot={}|dbg={}|jsonok={}|gfafile={}|gfashort={}", esc(&gfa_txt), esc(&jtxt), esc(&f2), esc(&f3), esc(&dbg.join("\n")).replace('|', "\\p"), jsonok as u8, gfafile as u8, gfashort as u8)
 }
 
 fn persist_kmer<K: Raw + serde::Serialize + serde::de::DeserializeOwned>(raw: u128) -> String {
@@ -274,7 +282,37 @@ fn gen_graph_nodes<K: Kmer + Send + Sync>(rng: &mut Rng, k: usize, tier: &str, s
     (nodes, censor)
 }
 
+/// stranded, even K: the read `L ++ P ++ R` with `P` its own reverse complement, compressed in three pieces (k-mers before `P` | `P` |
+/// k-mers after `P`) and combined: every adjacency that can still be merged touches the single-k-mer node `P`
+fn gen_pal_pieces<K: Kmer + Send + Sync>(rng: &mut Rng, k: usize) -> String {
+    loop {
+        let half: Vec<u8> = (0..k / 2).map(|_| rng.below(4) as u8).collect();
+        let mut s: Vec<u8> = (0..rng.range(1, 6)).map(|_| rng.below(4) as u8).collect();
+        let ip = s.len();
+        s.extend(half.iter()); s.extend(crate::gr::rc_of(&half));
+        s.extend((0..rng.range(1, 6)).map(|_| rng.below(4) as u8));
+        let ws: Vec<Vec<u8>> = s.windows(k).map(|w| w.to_vec()).collect();
+        if (0..ws.len()).any(|i| (0..i).any(|j| ws[i] == ws[j])) { continue; }
+        let t: Vec<(K, (Exts, u32))> = table_from_reads(&[s.clone()], &[0], true, 1, false, true);
+        let spec = Spec { join_eq: false, reduce: 0 };
+        let bases = |x: &K| -> Vec<u8> { (0..k).map(|i| x.get(i)).collect() };
+        let mut parts = Vec::new();
+        for sel in 0..3 {
+            let part: Vec<(K, (Exts, u32))> = t.iter().filter(|x| { let p = ws.iter().position(|w| *w == bases(&x.0)).unwrap(); (sel == 0 && p < ip) || (sel == 1 && p == ip) || (sel == 2 && p > ip) }).cloned().collect();
+            if part.is_empty() { continue; }
+            let idx = boomphf::hashmap::BoomHashMap2::new(part.iter().map(|x| x.0).collect(), part.iter().map(|x| (x.1).0).collect(), part.iter().map(|x| (x.1).1).collect());
+            parts.push(compress_kmers_with_hash(true, &spec, &idx));
+        }
+        let g = BaseGraph::combine(parts.into_iter()).finish();
+        return format!("C09 recompress {} 1 1 always {} {} {}", k, *rng.pick(&["sum", "max"]), show_nat_list(&[]), show_graph(&g.base));
+    }
+}
+
 pub fn gen09(rng: &mut Rng, tier: &str) -> String {
+    if rng.chance(1, 12) {
+        let k = *rng.pick(&[4usize, 4, 6, 8]);
+        return with_graph_kmer!(k, gen_pal_pieces, rng, k);
+    }
     let k = pick_k(rng, tier);
     let stranded = rng.chance(1, 3);
     let colour = rng.chance(1, 4);
